@@ -288,6 +288,18 @@ def jacobi_der_seq(ns, alpha, beta, x):
     return out
 
 
+def _as_sequence(it):
+    """it, if it can be measured and indexed (list, tuple, array); otherwise its items in a list.
+
+    Coefficient and order arguments are documented as iterables; a generator, an
+    iterator or a dictionary view can be traversed but has no len() / indexing.
+
+    """
+    if isinstance(it, (list, tuple)) or hasattr(it, 'shape'):
+        return it
+    return list(it)
+
+
 def _initialize_alphas(s, x, alphas, j=0):
     # j = derivative order
     if alphas is None:
@@ -341,6 +353,7 @@ def jacobi_sum_clenshaw(s, alpha, beta, x, alphas=None):
     # and I use the A&S notation Pn = (a x + b)Pn-1 - cPn-2
     # so the "a" and "b" below are swapped here
     # checked to be correct, though...
+    s = _as_sequence(s)
     alphas = _initialize_alphas(s, x, alphas)
     M = len(s) - 1
     alphas[M] = s[M]
@@ -401,6 +414,7 @@ def jacobi_sum_clenshaw_der(s, alpha, beta, x, j=1, alphas=None):
     # j = derivative
     # n = order
     # inner loop over n, outer loop over j
+    s = _as_sequence(s)
     alphas = _initialize_alphas(s, x, alphas, j=j)
     M = len(s) - 1
     # seed the first sweep of alpha, for j=0, by side effect
